@@ -71,7 +71,7 @@ C02Fails(o, dec) ==
       fw == FormatWordFor(v, dec.fmt.level, dec.fmt.mask)
   IN pf \cup
   {c \in {"fmt_valid", "fmt_copy2", "fmt_matches_data", "version_info",
-          "meta_version", "meta_error", "meta_mask", "meta_micro", "meta_designator", "meta_mode", "meta_size", "meta_border"} :
+          "meta_version", "meta_error", "meta_mask", "meta_micro", "meta_designator", "meta_mode", "meta_size", "meta_border", "meta_size_scaled"} :
      CASE c = "fmt_valid" -> ~(dec.fmt.valid /\ dec.size_ok /\ HasLevel(v, dec.fmt.level) /\ dec.f1 = fw)
        [] c = "fmt_copy2" -> ~dec.fmt2_ok
        [] c = "fmt_matches_data" -> ~dec.d.rs_ok     \* the level and mask announced are the ones actually used
@@ -83,7 +83,11 @@ C02Fails(o, dec) ==
        [] c = "meta_designator" -> res.designator # Designator(v, dec.fmt.level)
        [] c = "meta_mode" -> ~ModeReportOK(res, dec.d.segs)
        [] c = "meta_size" -> LET b == IF IsMicro(v) THEN 2 ELSE 4 IN res.symbol_size # <<n + 2*b, n + 2*b>>
-       [] c = "meta_border" -> res.default_border # (IF IsMicro(v) THEN 2 ELSE 4)}
+       [] c = "meta_border" -> res.default_border # (IF IsMicro(v) THEN 2 ELSE 4)
+       \* symbol_size(scale, border) = (size + 2 * border) * scale in both directions; res.sizes: <<scale, border (-1 = default), w, h>>
+       [] c = "meta_size_scaled" -> \E i \in 1..Len(res.sizes) :
+                                      LET z == res.sizes[i] b == IF z[2] = -1 THEN (IF IsMicro(v) THEN 2 ELSE 4) ELSE z[2] IN
+                                      z[3] # (n + 2*b) * z[1] \/ z[4] # (n + 2*b) * z[1]}
 
 (* ---------------- C03: block layout, RS validity, correctability ---------------- *)
 ApplyFaults(cw, pat) == FoldLeft(LAMBDA a, f : [a EXCEPT ![f[1]] = @ ^^ f[2]], cw, pat)    \* f = <<index, xor value>>
